@@ -152,7 +152,9 @@ class ProofTerm:
         return ProofTerm("equal_intr", None, [self, pt2])
 
     def equal_elim(self, pt2: ProofTerm) -> ProofTerm:
-        if self.is_reflexive():
+        # A = A applied to a proof of A changes nothing.  (Applied to a proof of
+        # anything else the rule itself must refuse.)
+        if self.is_reflexive() and self.prop.lhs == pt2.prop:
             return pt2
         return ProofTerm("equal_elim", None, [self, pt2])
 
